@@ -1211,7 +1211,13 @@ func (self *_parser) parseArrowFunction(start file.Idx, paramList *ast.Parameter
 		Async:         async,
 	}
 	node.Body, node.DeclarationList = self.parseArrowFunctionBody(async)
-	node.Source = self.slice(start, node.Body.Idx1())
+	end := node.Body.Idx1()
+	if _, ok := node.Body.(*ast.ExpressionBody); ok && self.prevEnd > end {
+		// Parentheses are not AST nodes: an expression body ending in ')' (e.g. `() => (1)`, `() => ({})`) ends
+		// after the last token that was consumed, not at the end of the innermost expression node.
+		end = self.prevEnd
+	}
+	node.Source = self.slice(start, end)
 	return node
 }
 
